@@ -331,6 +331,10 @@ func checkC12(ctx *pbt.Ctx, c c12Case) error {
 	if err != nil {
 		return err
 	}
+	if out.Hung && !out.Crashed {
+		ctx.Label("no-result-within-bound-twice(C08)")
+		return nil // termination is C08's statement; this property cannot judge a run without a result
+	}
 	if out.Crashed || out.Hung {
 		return fmt.Errorf("executing %q crashed=%v hung=%v: %s", full.String(), out.Crashed, out.Hung, lastLines(out.Stderr, 10))
 	}
